@@ -48,3 +48,9 @@ N("c17-n-eof-test-flipped", "C17", TLS, P, "                    if self.standard
   "                    if not self.standard_compatible:\n                        raise EndOfStream from None\n\n                    raise BrokenResourceError from exc")
 N("c17-n-receive-chunk-name", "C17", TLS, "TLSStream.receive", "        data = await self._call_sslobject_method(self._ssl_object.read, max_bytes)\n        if not data:\n            raise EndOfStream\n\n        return data",
   "        plaintext = await self._call_sslobject_method(self._ssl_object.read, max_bytes)\n        if plaintext:\n            return plaintext\n\n        raise EndOfStream")
+
+# from seeded change C17/a
+M("c17-wrap-remaps-handshake-eof", "C17", TLS, "TLSStream.wrap", "        await wrapper._call_sslobject_method(ssl_object.do_handshake)\n",
+  "        try:\n            await wrapper._call_sslobject_method(ssl_object.do_handshake)\n        except EndOfStream:\n            raise BrokenResourceError from None\n", ["R17-b"])
+M("c17-receive-swallows-broken", "C17", TLS, "TLSStream.receive", "        data = await self._call_sslobject_method(self._ssl_object.read, max_bytes)\n",
+  "        try:\n            data = await self._call_sslobject_method(self._ssl_object.read, max_bytes)\n        except BrokenResourceError:\n            raise EndOfStream from None\n", ["R17-b"])
